@@ -157,6 +157,11 @@ C04_NonInterference(o) ==
         IN /\ pe # <<>> /\ Ends(o) # <<>>
            /\ pe[1].d.ok = EndD(o).ok /\ pe[1].d.err = EndD(o).err /\ pe[1].d.werr = EndD(o).werr
 
+\* the U2F API has no prompt of its own: the caller collected the presence flags, and the response (and what is
+\* signed) carries exactly those - no control byte adds or removes one
+C04_U2fPresenceTruthful(o) ==
+    (o.b.api = "u2f" /\ o.b.op = "auth" /\ EndOk(o)) => EndD(o).flags = o.b.req.presence
+
 -----------------------------------------------------------------------------
 (* C05 - own RP, allow / exclude lists                                      *)
 
@@ -244,6 +249,12 @@ C07_StoreErrorReported(o) ==
             (o.evs[i].ev = "Store" /\ o.evs[i].d.call \in {"save", "update"} /\ ~o.evs[i].d.ok) =>
                 ~EndOk(o) /\ ErrIs(o, o.evs[i].d.err)
 
+\* ... also through the U2F API, whatever status the store raised (the U2F error word need not carry it)
+C07_U2fStoreErrorReported(o) ==
+    (o.b.api = "u2f" /\ Ends(o) # <<>>) =>
+        \A i \in 1..Len(o.evs) :
+            (o.evs[i].ev = "Store" /\ o.evs[i].d.call \in {"save", "update"} /\ ~o.evs[i].d.ok) => ~EndOk(o)
+
 -----------------------------------------------------------------------------
 (* C08 - signature counters                                                 *)
 
@@ -304,6 +315,14 @@ C02_Registration(o) ==
 C02_NoSupportedAlgorithm(o) ==
     (IsMc(o) /\ Finished(o) /\ Ends(o) # <<>> /\ FirstSupported(Req(o).algs) = "none" /\ o.b.api # "u2f") =>
         ~EndOk(o) /\ Unchanged(o)
+
+\* "the algorithm is the first supported entry of the preference list": a list that has one is served.  Judged on
+\* CTAP2-level registrations in which nothing else stands in the way (consent given, no exclude hit, no pinAuth, an rk
+\* the store can provide, no extension request, no store fault, not cancelled).
+C02_SupportedListAccepted(o) ==
+    (IsMc(o) /\ o.b.api \in {"ctap2", "trait"} /\ Ends(o) # <<>> /\ FirstSupported(Req(o).algs) = "ES256"
+        /\ ConsentGiven(o) /\ NoFaults(o) /\ ~ExcludeHit(o) /\ ~Req(o).pinAuth
+        /\ ~(Req(o).rk /\ o.cfg.disc = "nondisc") /\ ~Req(o).prf.given /\ Req(o).hs = "absent") => EndOk(o)
 
 C03_Assertion(o) ==
     (IsGa(o) /\ EndOk(o) /\ o.b.api # "u2f") =>
@@ -444,6 +463,9 @@ C17_Registration(o) ==
         /\ d.cred = Req(o).handle
         /\ d.keymatch                           \* the stored private key belongs to the returned public key
         /\ Has(o.snap, Req(o).handle) /\ Get(o.snap, Req(o).handle).rp = Req(o).rp
+\* a registration succeeds for every key handle of 0..255 bytes (no store fault injected)
+C17_RegistrationSucceeds(o) ==
+    (IsU2f(o) /\ o.b.op = "reg" /\ Ends(o) # <<>> /\ NoFaults(o)) => EndOk(o)
 C17_Authentication(o) ==
     (IsU2f(o) /\ o.b.op = "auth" /\ Ends(o) # <<>>) =>
         LET known == Has(o.snap0, Req(o).handle) /\ Get(o.snap0, Req(o).handle).rp = Req(o).rp IN
@@ -506,6 +528,7 @@ Violated(o) ==
     \cup (IF ~C11_AssertionUserHandle(o) THEN {"C11.AssertionUserHandle"} ELSE {})
     \cup (IF ~C02_Registration(o) THEN {"C02.Registration"} ELSE {})
     \cup (IF ~C02_NoSupportedAlgorithm(o) THEN {"C02.NoSupportedAlgorithm"} ELSE {})
+    \cup (IF ~C02_SupportedListAccepted(o) THEN {"C02.SupportedListAccepted"} ELSE {})
     \cup (IF ~C03_Assertion(o) THEN {"C03.Assertion"} ELSE {})
     \cup (IF ~C03_NoEligibleCredential(o) THEN {"C03.NoEligibleCredential"} ELSE {})
     \cup (IF ~C09_Results(o) THEN {"C09.Results"} ELSE {})
@@ -516,6 +539,9 @@ Violated(o) ==
     \cup (IF ~C13_ClientStatusMapping(o) THEN {"C13.ClientStatusMapping"} ELSE {})
     \cup (IF ~C17_Registration(o) THEN {"C17.Registration"} ELSE {})
     \cup (IF ~C17_Authentication(o) THEN {"C17.Authentication"} ELSE {})
+    \cup (IF ~C17_RegistrationSucceeds(o) THEN {"C17.RegistrationSucceeds"} ELSE {})
+    \cup (IF ~C04_U2fPresenceTruthful(o) THEN {"C04.U2fPresenceTruthful"} ELSE {})
+    \cup (IF ~C07_U2fStoreErrorReported(o) THEN {"C07.U2fStoreErrorReported"} ELSE {})
     \cup (IF ~C18_SameAsDirect(o) THEN {"C18.SameAsDirect"} ELSE {})
     \cup (IF ~C01_RejectedNeverReaches(o) THEN {"C01.RejectedNeverReaches"} ELSE {})
     \cup (IF ~C01_EffectiveRpUsed(o) THEN {"C01.EffectiveRpUsed"} ELSE {})
